@@ -231,6 +231,15 @@ func runC16(r *core.Run) {
 					c08Arg(r, d, shape, lay, "id", "Argmax", ax, "func", arr)
 					c08Arg(r, d, shape, lay, "id", "Argmin", ax, "method", arr)
 				}
+				// extremes in the INTERIOR (an ascending ramp has its minimum at offset 0 and its maximum at the last offset in
+				// either data order: a kernel that answers with a storage offset would pass)
+				if d.Class != ref.CUint {
+					arrT := ref.Arr{DT: d, Shape: shape, El: c08Vals(d, n, "ties")}
+					for ax := -1; ax < len(shape); ax++ {
+						c08Arg(r, d, shape, lay, "ties", "Argmax", ax, "method", arrT)
+						c08Arg(r, d, shape, lay, "ties", "Argmin", ax, "func", arrT)
+					}
+				}
 			}
 		}
 	}
